@@ -286,6 +286,18 @@ def nested_list_not_defaulted(ctx: Ctx, rep: Report, rid: str = "R10.8", only: O
                                 passed |= {kk.value for kk in d.value.keys if isinstance(kk, ast.Constant)}
         if not passed:
             continue
+        # the nested call gives a key explicitly AND spreads the caller's own **kwargs next to it: one level down the
+        # kwargs already hold that key - `dict(items=..., **kwargs)` / `f(items=..., **kwargs)` raise TypeError there
+        if kwname:
+            for x in own_nodes(f.node):
+                if isinstance(x, ast.Call) and ((isinstance(x.func, ast.Name) and x.func.id == "dict") or (isinstance(x.func, ast.Attribute) and x.func.attr == f.name and src(x.func.value) in ("self", "super()"))):
+                    explicit = {k.arg for k in x.keywords if k.arg}
+                    spreads_own = any(k.arg is None and isinstance(k.value, ast.Name) and k.value.id == kwname for k in x.keywords)
+                    clash = sorted(explicit & passed)
+                    if spreads_own and clash and (isinstance(x.func, ast.Attribute) or any(isinstance(c2, ast.Call) and isinstance(c2.func, ast.Attribute) and c2.func.attr == f.name for c2 in own_nodes(f.node))):
+                        hits += 1
+                        rep.instance()
+                        rep.violation(f.qualname, snippet(x, 60), f"the descent gives {clash} explicitly and spreads the caller's own keyword arguments next to it: inside a nested group those arguments already hold {clash}, so a group inside a group raises TypeError ('multiple values for keyword argument') and the ACL is left half renumbered", where(f, x), inp="acl = Acl(items=[AceGroup(items=[AceGroup('permit ip any any')])]); acl.resequence()")
         for x in own_nodes(f.node):
             if not (isinstance(x, ast.BoolOp) and isinstance(x.op, ast.Or) and len(x.values) >= 2):
                 continue
